@@ -18,6 +18,9 @@ CHECKS = {
  "C04": dict(engine="E1", technique="stateless exhaustive schedule enumeration (pre-emption/deviation bounded) of the real channel, tasks, dispatcher and I/O loop under a controlled scheduler with a virtual OS",
    text="For each pipeline scenario (two/three requests, bodies split over segments, Connection: close in the middle, a pipelined expecting request, lookahead 0..2, 1-2 workers, short-send choices) every interleaving of the I/O thread and the workers within the deviation bound is executed on the real code; application invocations must be sequential, in arrival order, each exactly once, and the client's byte log must equal, final response by final response, the wire of a sequential reference run.",
    note="CPython line atomicity; scheduling points at every HTTPChannel/dispatcher source line and every virtual lock/condition/socket/pipe/select operation; bounds per scenario in evidence.parts", ref="DESIGN.md §4 C04, §2 E1, appendix B"),
+ "C05": dict(engine="E1", technique="stateless exhaustive schedule enumeration (deviation bounded) with an infinite poll timeout; liveness judged at quiescence of the controlled system",
+   text="With select/poll never timing out, every interleaving within the bound of the I/O thread, the workers and the client's drain/segment events is executed on the real code for response sizes around the send window, send_bytes and the high watermark, both poll implementations, worker-side close decisions and late arrivals; at quiescence nothing may be pending while the socket is writable, no request or task may be queued, no close may be outstanding, no producer may wait for space that is available, the client must hold the complete responses, and a spinning I/O thread counts as a violation.",
+   note="quiescence = no virtual thread enabled and the environment script finished; virtual select evaluates the descriptor lists as passed", ref="DESIGN.md §4 C05"),
  "C06": dict(engine="E2", technique="exhaustive boundary enumeration of limits x sizes x read sizes + explicit-state token BFS under tiny limits on the real parser, against the reference verdict and a consumption bound",
    text="Every case of the boundary sweeps (head length vs header limit at -1/0/+1, declared and chunked body sizes around the body limit, unterminated lines past tiny limits, numbers of up to 10^5 digits, odd targets) x read sizes {1,7,8192}, and every token sequence up to the stated depth under limits (header 24, body 8), runs on the real server: refused messages never reach the application, exactly one well-formed 400/413/431/501 is sent and the socket closed, no exception escapes an event handler, nothing hangs, and consumption stops within one read of crossing the limit.",
    note="lookahead 0; one fixed schedule; a 20 s watchdog defines 'hang'", ref="DESIGN.md §4 C06"),
@@ -45,6 +48,9 @@ CHECKS = {
  "C20": dict(engine="E5", technique="exhaustive enumeration of option subsets / values / CLI spellings / socket lists against a reference exclusion table and reference casts",
    text="All subsets of the mutually exclusive address options x proxy-trust option combinations are accepted or refused exactly as the reference exclusion table says; every adjustment x values of its type is applied as the documented cast; --x / --no-x / --x=v / repeated --listen give the same settings as the keyword form, attribute by attribute; socket lists up to length 3 over four kinds are validated; the option names of docs/arguments.rst, docs/runner.rst and the runner help text equal the implemented table.",
    note="numeric hosts only (hermetic getaddrinfo); docs compared by option name", ref="DESIGN.md §4 C20"),
+ "C12": dict(engine="E1", technique="stateless exhaustive schedule enumeration (deviation bounded) of one producing worker against the draining I/O thread and a scripted client",
+   text="For a grid of outbuf_high_watermark {0,1,8,64} x send_bytes {1,8,100} x write sizes around the mark x client behaviours (partial drains then reading on, stall, reset or EOF at any point) every interleaving within the bound is executed: pending output sampled at every scheduling point never exceeds watermark + one write, a paused producer is never left waiting with space available, with the client reading, or after a disconnect, the client log is always a prefix of the expected stream and the iterable is closed after a disconnect.",
+   note="as C04; the largest single write is measured at write_soon()", ref="DESIGN.md §4 C12"),
  "C14": dict(engine="E1", technique="stateless exhaustive schedule enumeration (pre-emption/deviation bounded) of the real dispatcher under a controlled scheduler",
    text="Every interleaving of submitters, workers, resize and shutdown of the real ThreadedTaskDispatcher within the stated deviation bound (pre-emption at every dispatcher source line and lock/condition operation) is executed and checked for exactly-once, FIFO hand-out, worker-count convergence and shutdown effects.",
    note="CPython line-atomicity; virtual threading primitives replace threading.Lock/Condition/Thread; bounds per scenario in evidence.parts", ref="DESIGN.md §4 C14, §2 E1"),
